@@ -34,6 +34,7 @@ def check(ctx, tier):
     fill_values(ctx, tk)
     values_state(ctx, tk)
     scalar_expansion(ctx, tk)
+    equality_compares_keys(ctx, tk)
     fs = [f for q, f in ctx.program.funcs.items() if q.startswith("hashtable.")]
     hazards.h2_argmax_of_mask(ctx, tk, "C11.b", fs)
     W.report(ctx, tk, "C11.j", fs)
@@ -207,10 +208,22 @@ def single_hash(ctx, tk):
     # keys handed over as buckets: the modulus is their number of rows
     f0 = ctx.func(HT + "__init__")
     fa0 = ctx.fa(f0)
-    for n in fa0.cfg.stmts():
-        if n.kind == "stmt" and isinstance(n.ast, ast.Assign) and isinstance(n.ast.targets[0], ast.Attribute) and n.ast.targets[0].attr == "_mod":
+    mod_stores = [n for n in fa0.cfg.stmts() if n.kind == "stmt" and isinstance(n.ast, ast.Assign) and isinstance(n.ast.targets[0], ast.Attribute) and n.ast.targets[0].attr == "_mod"]
+
+    def _inst(n, want):
+        return any(t.k == "call" and call_name(t) == "isinstance" and truth is want for t, truth, _ in facts_at(fa0, n))
+    if mod_stores and not any(_inst(n, True) for n in mod_stores):
+        # no store is specific to keys given as buckets: the store(s) that are not confined to the other case decide
+        for n in [m_ for m_ in mod_stores if not _inst(m_, False)]:
             tm = fa0.term(n.ast.value, n)
-            if any(t.k == "call" and call_name(t) == "isinstance" and truth for t, truth, _ in facts_at(fa0, n)):
+            bad = any(x.k == "call" and x.a[0].k == "attr" and x.a[0].a[1] == "_get_mod" for x in walk(tm))
+            ctx.decide("C11.d", f0, "for keys handed over as buckets the modulus is the number of bucket rows", False if bad else None,
+                       "modulus is %s whatever the kind of keys: a table built over an existing bucket array (zeros_like, ones_like, table + table) hashes into "
+                       "2n-1 buckets while its keys are stored in len(keys) buckets" % (tm,), node=n.ast, key="mod-of-buckets", engine="E5")
+    for n in mod_stores:
+        if True:
+            tm = fa0.term(n.ast.value, n)
+            if _inst(n, True):
                 ok = (tm.k == "call" and call_name(tm) == "len" and tm.a[1] and tm.a[1][0].k == "param" and tm.a[1][0].a[0] == f0.params[1]) or (attr_chain(tm) or ("",))[-1] == "n_rows"
                 bad = any(x.k == "call" and x.a[0].k == "attr" and x.a[0].a[1] == "_get_mod" for x in walk(tm)) or any(x.k == "attr" and x.a[1] == "size" for x in walk(tm))
                 ctx.decide("C11.d", f0, "for keys handed over as buckets the modulus is the number of bucket rows", True if ok else (False if bad else None),
@@ -522,3 +535,23 @@ def _ternary_guard(n, u):
 def _exprs(n):
     from ..resolve import _exprs_of_node
     return _exprs_of_node(n)
+
+
+def equality_compares_keys(ctx, tk):
+    """two tables are equal only if they hold the same keys: every answer of __eq__ depends on a comparison of the key
+    arrays (a return that looks at the values alone calls tables over different key sets equal)"""
+    f = ctx.func(HT + "__eq__")
+    fa = ctx.fa(f)
+    what = "every answer of == depends on a comparison of the two key arrays"
+    for r in fa.cfg.returns():
+        if r.ast.value is None:
+            continue
+        tm = fa.term(r.ast.value, r)
+        keys_cmp = any((x.k == "cmp" and all(any((attr_chain(y) or ("",))[-1] == "_keys" for y in walk(o)) for o in (x.a[1], x.a[2]))) or
+                       (x.k == "call" and x.a[0].k == "attr" and x.a[0].a[1] in ("equals", "array_equal") and any((attr_chain(y) or ("",))[-1] == "_keys" for y in walk(x)))
+                       for x in walk(tm))
+        const_false = all(is_const(a, False) or (a.k == "global" and a.a[0] == "NotImplemented") for a in alts(tm))
+        facts_keys = any(any((attr_chain(y) or ("",))[-1] == "_keys" for y in walk(t)) for t, _tr, _ in facts_at(fa, r))
+        ctx.decide("C11.g", f, what, True if (keys_cmp or const_false or facts_keys) else False,
+                   "`%s` answers without comparing the keys: two tables over different key sets with the same (scalar) value compare equal" % ast.unparse(r.ast),
+                   node=r.ast, key="eq-keys:%d" % getattr(r, "lineno", 0), engine="E4")
